@@ -310,9 +310,21 @@ class Evaluator:
                 self.block(s["body"], env, this)
             except Thrown as t:
                 hs = s.get("handlers") or []
-                if len(hs) != 1:
-                    raise Broken("try with %d handlers: cannot tell which one catches (unmodelled)" % len(hs))
-                h = hs[0]
+                if not hs:
+                    raise
+                # the first handler whose type accepts the exception; an exception of unknown type is taken to be a
+                # std::runtime_error (what every throw of the repository and libzwerg's error bridge raise)
+                et = getattr(t, "etype", None) or "std::runtime_error"
+                fam = {"std::runtime_error": ("std::runtime_error", "std::exception"), "std::logic_error": ("std::logic_error", "std::exception"),
+                       "std::bad_alloc": ("std::bad_alloc", "std::exception")}.get(et, (et,))
+                h = None
+                for cand in hs:
+                    ht = cand.get("t") or "..."
+                    if ht == "..." or any(f_ in ht for f_ in fam):
+                        h = cand
+                        break
+                if h is None:
+                    raise
                 if h.get("var"):
                     env[h["var"]["id"]] = ("exception", str(t))
                 self.block(h["body"], env, this)
